@@ -58,7 +58,7 @@ def synthetic_schedule(rng):
     # innermost (spatial) extents: the gemmx 8x8x8 mostly; other extents make the running stride leave the access granularity early,
     # so that padded strides are followed by further tile levels and dimensions
     odd = rng.random() < 0.35
-    inner_b = {d: (rng.choice([8, 2, 3, 4, 5, 6]) if odd else 8) for d in "mnk"}
+    inner_b = {d: (rng.choice([8, 1, 1, 2, 3, 4, 5, 6]) if odd else 8) for d in "mnk"}
     for d in "mnk":
         bs = [rng.choice([1, 2, 3, 4]) for _ in range(levels[d])]
         mult = inner_b[d]
